@@ -91,6 +91,8 @@ Definition corr (c : case) : Z :=
 Definition clause (c : case) : bool :=
   match c_kind c with
   | 0%N | 1%N =>
+      (* `*...` and `|x` are no suffixes: selector.append must refuse them, nothing is said about the rule *)
+      if N.eqb (c_kind c) 1 && existsb (fun e => comp_cant_append (s_comp e)) (c_b c) then N.eqb (c_st1 c) 1 else
       (* the function and the nested rule agree (an error on one side needs a failure on the other) *)
       if N.eqb (c_st1 c) 0 then N.eqb (c_st2 c) 0 && otext_eqb (c_t1 c) (c_t2 c)
       else negb (N.eqb (c_st2 c) 0)
